@@ -52,6 +52,8 @@ func (t *Table) layout(id ID, out *[]Seg, depth int) {
 		}
 		*out = append(*out, Seg{Kind: 'L', Lit: s})
 	case op == "nil" || op == `""`:
+	case strings.HasPrefix(op, "make:slice") && len(tm.Args) == 1 && t.terms[tm.Args[0]].Op == "0":
+		// make([]T, 0, cap): an empty slice with room to append — contributes no bytes
 	case op == "concat" || op == "append":
 		for _, a := range tm.Args {
 			t.layout(a, out, depth+1)
